@@ -628,6 +628,9 @@ class HistRun:
                         and not (self.prop == "C15" and op["op"] == "proppatch" and len(op.get("instrs", [])) > 1):
                     # (half of them early: the first mutations of a write are the lock and the file itself)
                     op["fault"] = {"after": self.frng.randint(1, 6) if self.frng.random() < 0.5 else self.frng.randint(1, 45), "errno": self.frng.choice(["ENOSPC", "ENOSPC", "EIO"])}
+                    if self.prop == "C15" and op["op"] == "proppatch" and self.frng.random() < 0.5:
+                        # the second and third mutation of a property write are the metadata file itself
+                        op["fault"]["after"] = self.frng.choice([2, 3])
                     self.io_armed += 1
                 return op
         return {"op": "get", "path": "/user/", "salt": 0}
@@ -980,14 +983,16 @@ class HistRun:
                 out.append(dict(r.choice(out)))
             elif k == "variant" and names:
                 special = [n for n in names if any(ch in n for ch in ";,=+&@:'()")]
+                plain = [n for n in names if not any(ch in n for ch in ";,=+&@:'()% #?")]
                 if special and r.random() < 0.5:
                     # sub-delimiters sent literally, as RFC 3986 allows inside a path segment
                     out.append({"rel": c.path + r.choice(special), "enc": "subdelims"})
+                elif plain and r.random() < 0.5:
+                    # a never-existing name that differs from a member only behind a literal ';'
+                    n = r.choice(plain)
+                    out.append({"rel": c.path + n + r.choice([";v=2", ";x", ",2"]), "enc": "subdelims"})
                     if r.random() < 0.5:
-                        # and a never-existing name that differs from a member only behind a ';'
-                        plain = [n for n in names if not any(ch in n for ch in ";,=+&@:'()% #?")]
-                        if plain:
-                            out.append({"rel": c.path + r.choice(plain) + ";v=2", "enc": "subdelims"})
+                        out.append({"rel": c.path + n})
                 else:
                     out.append({"rel": c.path + r.choice(names), "enc": r.choice(["full", "lower", "plain", "dslash", "dotseg"])})
             elif k == "abs" and names:
